@@ -222,14 +222,15 @@ class Violin(object):
         # Compute kde
         for cn, se in data.items():
             notnull = se.notnull() & np.isfinite(se.values)
-            if notnull.sum() <= 2:
-                kde_x.loc[:, cn] = np.nan
-                kde_y.loc[:, cn] = np.nan
-                continue
-
             sen = se[notnull]
             values = sen.values
             x0, x1 = sen.min(), sen.max()
+
+            # No density for too few values or a constant column
+            if notnull.sum() <= 2 or x0 == x1:
+                kde_x.loc[:, cn] = np.nan
+                kde_y.loc[:, cn] = np.nan
+                continue
 
             # reduce impact of censored data
             ilow = np.abs(values-x0) < 1e-10
